@@ -38,7 +38,7 @@ def real_init(cls, name="__init__"):
         f = k.__dict__.get(name)
         if f is None:
             continue
-        if getattr(f, "__qualname__", "") == "_immutable_init.<locals>.nf":
+        while getattr(f, "__qualname__", "") == "_immutable_init.<locals>.nf":
             f = f.__closure__[0].cell_contents
         if getattr(f, "__qualname__", "").startswith("immutable.<locals>.ncls."):
             continue
@@ -52,6 +52,23 @@ def is_immutable_class(cls):
 
 def get_attr(I, v, name):
     itp = _itp()
+    if isinstance(v, itp.SuperProxy):
+        for k in v.rest:
+            if name in k.__dict__:
+                d = k.__dict__[name]
+                f = d.__func__ if isinstance(d, (classmethod, staticmethod)) else d
+                while getattr(f, "__qualname__", "") == "_immutable_init.<locals>.nf":
+                    f = f.__closure__[0].cell_contents
+                if getattr(f, "__qualname__", "").startswith("immutable.<locals>.ncls."):
+                    continue
+                if f is object.__init__:
+                    return itp.Closure(ast.parse("lambda *a, **k: None", mode="eval").body, itp.Frame(None, {}, {}, None))
+                if isinstance(d, classmethod):
+                    return itp.BoundMethod(v.obj.cls if isinstance(v.obj, SObj) else v.obj, f, name)
+                if isinstance(f, types.FunctionType):
+                    return itp.BoundMethod(v.obj, f, name)
+                return d
+        I.raise_py(AttributeError, name)
     if isinstance(v, SObj):
         if name in v.fields:
             return v.fields[name]
@@ -248,6 +265,12 @@ def call_class(I, cls, args, kwargs):
         if itp.has_sym(args):
             import dns.enum
 
+            if issubclass(cls, enum.IntFlag) and len(args) == 1 and isinstance(args[0], SInt) and not kwargs:
+                # IntFlag keeps unknown bits (boundary KEEP): the result is the integer itself for a
+                # non-negative value (A-lib: enum is value preserving)
+                if not I.path.branch(args[0].e >= 0, note="intflag-nonneg"):
+                    I.raise_py(ValueError, "invalid flag value")
+                return args[0]
             if issubclass(cls, dns.enum.IntEnum) and len(args) == 1 and isinstance(args[0], SInt) and not kwargs:
                 # dns.enum.IntEnum accepts every int its _check_value accepts (known member or
                 # _missing_ pseudo-member) and the result is that int (A-lib: enum is value preserving)
@@ -430,6 +453,9 @@ def sym_method(I, recv, name, args, kwargs):
             if cn == 0:
                 return False
             raise Unsupported("isdigit on a string of unknown length")
+        if name in ("isalnum", "isalpha", "isascii", "isupper", "islower", "isspace") and not args:
+            pred = z3.Function("bytes_" + name, S.SeqI, S.BoolS)
+            return SBool(pred(e))  # a deterministic predicate of the content (A-lib); nothing else is assumed
         if name == "append" and k == "bytearray":
             xz = to_z3(args[0])
             if not I.path.branch(z3.And(xz >= 0, xz <= 255), note="byte-range"):
@@ -564,7 +590,26 @@ def le_bytes(x, n):
 
 
 def be_int(I, e, n, off=0):
-    """big-endian value of n octets of e starting at off; adds the octet-range facts"""
+    """big-endian value of n octets of e starting at off; adds the octet-range facts.  When the
+    octets are syntactically the n octets of one integer y (as produced by be_bytes), the value is
+    y mod 256**n (the radix-256 digit identity, valid for every integer y)."""
+    octs = [z3.simplify(e[off + k]) for k in range(n)]
+    src = None
+    for k, b in enumerate(octs):
+        y = None
+        want = 256 ** (n - 1 - k)
+        if z3.is_app(b) and b.decl().kind() == z3.Z3_OP_MOD and z3.is_int_value(b.arg(1)) and b.arg(1).as_long() == 256:
+            inner = b.arg(0)
+            if want == 1:
+                y = inner
+            elif z3.is_app(inner) and inner.decl().kind() == z3.Z3_OP_IDIV and z3.is_int_value(inner.arg(1)) and inner.arg(1).as_long() == want:
+                y = inner.arg(0)
+        if y is None or (src is not None and not src.eq(y)):
+            src = None
+            break
+        src = y
+    if src is not None and n > 0:
+        return simp(src % (256**n))
     r = z3.IntVal(0)
     for k in range(n):
         b = e[off + k]
@@ -579,6 +624,8 @@ STRUCT_CODES = {"B": (1, False), "H": (2, False), "I": (4, False), "L": (4, Fals
 
 
 def _parse_fmt(fmt):
+    if isinstance(fmt, str) and fmt and fmt[0] not in "!>@=<" and all(ch in "Bbsc0123456789" for ch in fmt):
+        fmt = "!" + fmt  # native order/alignment is irrelevant for single-octet fields
     if not isinstance(fmt, str) or not fmt or fmt[0] not in "!>":
         raise Unsupported(f"struct format {fmt!r} (only network/big-endian constant formats are modelled)")
     out = []
@@ -621,6 +668,13 @@ def m_struct_pack(I, args, kwargs):
         if signed:
             x = z3.If(x < 0, x + 256**size, x)
         parts.append(be_bytes(x, size))
+        if size > 1:
+            # radix-256 digit identity for the value just range-checked: the octets read back
+            # big-endian give the value (stated once here so that decoders need no nonlinear step)
+            h = z3.IntVal(0)
+            for k in range(size):
+                h = h * 256 + _byte_of(x, size - 1 - k)
+            I.path.assume(h == x)
     if not parts:
         return b""
     e = parts[0] if len(parts) == 1 else z3.Concat(*parts)
@@ -936,7 +990,30 @@ def m_cast(I, args, kwargs):
 
 
 def m_super(I, args, kwargs):
-    raise Unsupported("super()")
+    itp = _itp()
+    if args or not I.frame_stack:
+        raise Unsupported("super() with arguments")
+    frame = I.frame_stack[-1]
+    fn = frame.fn
+    info = frame.info
+    if fn is None or info is None or not info.node.args.args:
+        raise Unsupported("super() outside a method")
+    obj = frame.locals.get(info.node.args.args[0].arg)
+    cls = obj.cls if isinstance(obj, SObj) else (obj if isinstance(obj, type) else type(obj))
+    mro = list(cls.__mro__)
+    # the compiler stores the lexically enclosing class in the __class__ cell
+    if fn.__closure__ and "__class__" in fn.__code__.co_freevars:
+        defining = fn.__closure__[fn.__code__.co_freevars.index("__class__")].cell_contents
+        if defining in mro:
+            return itp.SuperProxy(obj, mro[mro.index(defining) + 1:])
+    for i, k in enumerate(mro):
+        for v in k.__dict__.values():
+            f = v.__func__ if isinstance(v, (classmethod, staticmethod)) else v
+            while getattr(f, "__qualname__", "") == "_immutable_init.<locals>.nf":
+                f = f.__closure__[0].cell_contents
+            if getattr(f, "__code__", None) is fn.__code__:
+                return itp.SuperProxy(obj, mro[i + 1:])
+    raise Unsupported("super(): defining class not found")
 
 
 def m_str(I, args, kwargs):
